@@ -10,9 +10,9 @@ package main
 // destination the page was rendered for.
 //
 // Output, one line per op:
-//   <op> <n responses> { R <status> <html 0/1> <canaryElems> <canaryAttrs> <reflected 0/1> <n inputs>
+//   <op> <n responses> { R <status> <html 0/1> <hex Content-Type on the wire> <hex first 512 body bytes> <canaryElems> <canaryAttrs> <reflected 0/1> <n inputs>
 //        { I <hex norm> <hex seg> <hex x/net value> <hex x/net reading of seg, `tok` format> } [ B <hex base64 operand> ] }
-//   (R 0 0 0 0 0 0 E <hex reason> when no response could be read: handler panic, save error)
+//   (R 0 0 - - 0 0 0 0 E <hex reason> when no response could be read: handler panic, save error)
 // or for the pure ops:
 //   esc   <hex html.EscapeString> <hex template.HTMLEscapeString>
 //   tok   tag … | none            (x/net/html reading of a segment, same format as the driver)
@@ -52,6 +52,8 @@ type vfC18Input struct {
 
 type vfC18Page struct {
 	status      int
+	ctype       string // Content-Type as on the wire (sniffed by net/http when the handler set none)
+	prefix      string // first 512 body bytes (what a sniffer looks at)
 	isHTML      bool
 	canaryElems int
 	canaryAttrs int
@@ -61,18 +63,21 @@ type vfC18Page struct {
 	hasB64      bool
 }
 
-// vfC18Scan tokenizes an HTML body.
+// vfC18Scan tokenizes a response body as an HTML5 tokenizer would — whatever its label: whether
+// the response IS a markup document is decided by the judge from Content-Type and body together.
 func vfC18Scan(status int, ctype string, body []byte) vfC18Page {
 	pg := vfC18Page{status: status}
-	if ctype == "" {
+	if ctype == "" && len(body) > 0 {
 		// net/http sniffs the type on the first write; httptest.ResponseRecorder does not do so
 		// once WriteHeader has been called
 		ctype = http.DetectContentType(body)
 	}
-	pg.isHTML = strings.HasPrefix(strings.ToLower(strings.TrimSpace(ctype)), "text/html")
-	if !pg.isHTML {
-		return pg
+	pg.ctype = ctype
+	pg.prefix = string(body)
+	if len(pg.prefix) > 512 {
+		pg.prefix = pg.prefix[:512]
 	}
+	pg.isHTML = strings.HasPrefix(strings.ToLower(strings.TrimSpace(ctype)), "text/html")
 	z := xhtml.NewTokenizer(bytes.NewReader(body))
 	var xvalues []string
 	for {
@@ -114,6 +119,9 @@ func vfC18Scan(status int, ctype string, body []byte) vfC18Page {
 				pg.reflected = true
 			}
 		}
+	}
+	if !pg.isHTML {
+		return pg
 	}
 	// raw occurrences of the field
 	s := string(body)
@@ -207,10 +215,18 @@ func (e *vfC18Env) send(addr string, raw string) (int, string, []byte, string) {
 }
 
 func vfC18Raw(method, target, host string, hdr map[string]string, body string) string {
+	return vfC18RawAccept(method, target, host, "text/html", hdr, body)
+}
+
+// vfC18RawAccept: accept == "" sends no Accept header at all.
+func vfC18RawAccept(method, target, host, accept string, hdr map[string]string, body string) string {
 	var b strings.Builder
 	b.WriteString(method + " " + target + " HTTP/1.1\r\n")
 	b.WriteString("Host: " + host + "\r\n")
-	b.WriteString("Accept: text/html\r\nConnection: close\r\n")
+	if accept != "" {
+		b.WriteString("Accept: " + accept + "\r\n")
+	}
+	b.WriteString("Connection: close\r\n")
 	keys := make([]string, 0, len(hdr))
 	for k := range hdr {
 		keys = append(keys, k)
@@ -258,7 +274,7 @@ func vfC18Candidates(method, target string, form url.Values) []string {
 // the first candidate when none matches (which is then reported as a wrong value).
 func (e *vfC18Env) pageLine(pg vfC18Page, cands []string) string {
 	var b strings.Builder
-	b.WriteString("R " + itoa(pg.status) + " " + vfBool(pg.isHTML) + " " + itoa(pg.canaryElems) + " " + itoa(pg.canaryAttrs) + " " + vfBool(pg.reflected) + " " + itoa(len(pg.inputs)))
+	b.WriteString("R " + itoa(pg.status) + " " + vfBool(pg.isHTML) + " " + vfHex(pg.ctype) + " " + vfHex(pg.prefix) + " " + itoa(pg.canaryElems) + " " + itoa(pg.canaryAttrs) + " " + vfBool(pg.reflected) + " " + itoa(len(pg.inputs)))
 	for _, in := range pg.inputs {
 		norm := "\x00<unknown destination>"
 		for i, cand := range cands {
@@ -286,7 +302,7 @@ func (e *vfC18Env) do(addr, method, target string, hdr map[string]string, form u
 	}
 	st, ct, rb, errs := e.send(addr, vfC18Raw(method, target, "keymaster.example", hdr, body))
 	if errs != "" {
-		return "R 0 0 0 0 0 0 E " + vfHex(errs)
+		return "R 0 0 - - 0 0 0 0 E " + vfHex(errs)
 	}
 	return e.pageLine(vfC18Scan(st, ct, rb), cands)
 }
@@ -328,18 +344,29 @@ func TestVerifC18(t *testing.T) {
 	state.HostIdentity = "keymaster.example"
 	state.Config.Base.WebauthTokenForCliLifetime = time.Minute
 
+	state.Config.Base.AutomationUsers = []string{"role1"}
+	state.Config.Base.AutomationAdmins = []string{"vfautoadmin"}
+
+	// every route main() registers on the service port (table regenerated from the source)
 	mux := http.NewServeMux()
-	mux.HandleFunc(proto.LoginPath, state.loginHandler)
-	mux.HandleFunc(profilePath, state.profileHandler)
-	mux.HandleFunc(usersPath, state.usersHandler)
-	mux.HandleFunc(generateBoostrapOTPPath, state.generateBootstrapOTP)
-	mux.HandleFunc(idpOpenIDCAuthorizationPath, state.idpOpenIDCAuthorizationHandler)
-	mux.HandleFunc(totpGeneratNewPath, state.GenerateNewTOTP)
-	mux.HandleFunc(totpValidateNewPath, state.validateNewTOTP)
-	mux.HandleFunc(paths.SendAuthDocument, state.SendAuthDocumentHandler)
-	mux.HandleFunc(paths.ShowAuthToken, state.ShowAuthTokenHandler)
-	mux.HandleFunc(bootstrapOtpAuthPath, state.BootstrapOtpAuthHandler)
-	mux.HandleFunc("/", state.defaultPathHandler)
+	seen := map[string]bool{}
+	for _, rt := range vfRouteTable(state) {
+		if rt.service && !seen[rt.path] {
+			seen[rt.path] = true
+			mux.HandleFunc(rt.path, rt.h)
+		}
+	}
+	for path, h := range map[string]http.HandlerFunc{proto.LoginPath: state.loginHandler, profilePath: state.profileHandler,
+		usersPath: state.usersHandler, generateBoostrapOTPPath: state.generateBootstrapOTP,
+		idpOpenIDCAuthorizationPath: state.idpOpenIDCAuthorizationHandler, totpGeneratNewPath: state.GenerateNewTOTP,
+		totpValidateNewPath: state.validateNewTOTP, paths.SendAuthDocument: state.SendAuthDocumentHandler,
+		paths.ShowAuthToken: state.ShowAuthTokenHandler, bootstrapOtpAuthPath: state.BootstrapOtpAuthHandler,
+		"/": state.defaultPathHandler} {
+		if !seen[path] {
+			seen[path] = true
+			mux.HandleFunc(path, h)
+		}
+	}
 	srv := httptest.NewServer(instrumentedwriter.NewLoggingHandler(mux, httpLogger{}))
 	defer srv.Close()
 	admin := httptest.NewServer(newAdminDashboard(nil, false))
@@ -366,7 +393,7 @@ func TestVerifC18(t *testing.T) {
 		}
 		need := map[string]int{"loginfail": 3, "login2fa": 1, "root": 1, "urlget": 3, "urlpost": 4,
 			"profile": 4, "users": 1, "newtotp": 1, "bootstrap": 1, "showtoken": 1, "direct": 3,
-			"direct2fa": 1, "admin": 1, "esc": 1, "tok": 1, "b64": 1}
+			"direct2fa": 1, "admin": 1, "esc": 1, "tok": 1, "b64": 1, "req": 6}
 		if n, known := need[f[0]]; !known || len(args) != n {
 			ok = false
 		}
@@ -433,7 +460,7 @@ func TestVerifC18(t *testing.T) {
 				BootstrapOTP: bootstrapOTPData{ExpiresAt: time.Now().Add(time.Minute), Sha512Hash: testBootstrapOtpHash[:]},
 			}
 			if err := state.SaveUserProfile(user, prof); err != nil {
-				outs = append(outs, "R 0 0 0 0 0 0 E "+vfHex("save: "+err.Error()))
+				outs = append(outs, "R 0 0 - - 0 0 0 0 E "+vfHex("save: "+err.Error()))
 				break
 			}
 			outs = append(outs, env.do(env.addr, "GET", profilePath, env.cookie(user, full), nil, nil))
@@ -444,7 +471,7 @@ func TestVerifC18(t *testing.T) {
 			env.setWebUI(twoFA...)
 			if args[0] != "" {
 				if err := state.SaveUserProfile(args[0], &userProfile{}); err != nil {
-					outs = append(outs, "R 0 0 0 0 0 0 E "+vfHex("save: "+err.Error()))
+					outs = append(outs, "R 0 0 - - 0 0 0 0 E "+vfHex("save: "+err.Error()))
 					break
 				}
 			}
@@ -479,7 +506,7 @@ func TestVerifC18(t *testing.T) {
 				state.writeHTMLLoginPage(w, r, http.StatusUnauthorized, args[0], args[1], args[2])
 			}, httptest.NewRequest("GET", "/", nil))
 			if p != nil {
-				outs = append(outs, "R 0 0 0 0 0 0 E "+vfHex("panic"))
+				outs = append(outs, "R 0 0 - - 0 0 0 0 E "+vfHex("panic"))
 			} else {
 				outs = append(outs, env.pageLine(vfC18Scan(rr.Code, rr.Header().Get("Content-Type"), rr.Body.Bytes()), []string{args[1]}))
 			}
@@ -498,14 +525,47 @@ func TestVerifC18(t *testing.T) {
 			state.Config.Okta.Enable2FA = false
 			state.Mutex.Unlock()
 			if p != nil {
-				outs = append(outs, "R 0 0 0 0 0 0 E "+vfHex("panic"))
+				outs = append(outs, "R 0 0 - - 0 0 0 0 E "+vfHex("panic"))
 			} else {
 				outs = append(outs, env.pageLine(vfC18Scan(rr.Code, rr.Header().Get("Content-Type"), rr.Body.Bytes()), []string{args[0]}))
+			}
+		case "req": // <method> <path> <raw query> <form body> <Accept or empty> <cookie kind>: any route, any error path
+			env.setWebUI(twoFA...)
+			target := args[1]
+			if args[2] != "" {
+				target += "?" + args[2]
+			}
+			var hdr map[string]string
+			switch args[5] {
+			case "pw":
+				hdr = env.cookie("username", AuthTypePassword)
+			case "full":
+				hdr = env.cookie("vfuser", full)
+			case "admin":
+				hdr = env.cookie("vfadmin", full)
+			case "autoadmin":
+				hdr = env.cookie("vfautoadmin", full)
+			case "bad":
+				hdr = map[string]string{"Cookie": authCookieName + "=garbage"}
+			}
+			st, ct, rb, errs := env.send(env.addr, vfC18RawAccept(args[0], target, "keymaster.example", args[4], hdr, args[3]))
+			if errs != "" {
+				outs = append(outs, "R 0 0 - - 0 0 0 0 E "+vfHex(errs))
+			} else {
+				form, _ := url.ParseQuery(args[3])
+				if q, err := url.ParseQuery(args[2]); err == nil && form != nil {
+					for k, v := range q {
+						if _, dup := form[k]; !dup {
+							form[k] = v
+						}
+					}
+				}
+				outs = append(outs, env.pageLine(vfC18Scan(st, ct, rb), vfC18Candidates(args[0], target, form)))
 			}
 		case "admin": // <Host header>: status page of the admin port (third-party header writer)
 			st, ct, rb, errs := env.send(env.adminAdr, vfC18Raw("GET", "/", args[0], nil, ""))
 			if errs != "" {
-				outs = append(outs, "R 0 0 0 0 0 0 E "+vfHex(errs))
+				outs = append(outs, "R 0 0 - - 0 0 0 0 E "+vfHex(errs))
 			} else {
 				outs = append(outs, env.pageLine(vfC18Scan(st, ct, rb), nil))
 			}
